@@ -176,7 +176,65 @@ def gen_case(r, kind, nmax, ctx):
         ctx.hist("ssp_has_dominated", nd < len({tuple(p) for p in P})); ctx.hist("ssp_has_duplicates", len({tuple(p) for p in P}) < n)
         ctx.hist("ssp_n", n if n <= 16 else ">16"); ctx.hist("ssp_k", min(k, 10)); ctx.hist("ssp_has_equal_x", len({p[0] for p in P}) < n)
         return f"ssp {k} {n} {flat([ref])} {flat(P)}"
+    if kind == "hoys":
+        # HypervolumeCalculatorMDHOY::stream called directly on a (possibly nested-looking) region; even point coordinates
+        # (the median of two of them is an integer, so model and C++ compute the same bounds)
+        m = r.choice([3, 3, 4, 4, 5]); w = r.choice([2, 3, 4, 5])
+        lo = [r.range(-1, w) for _ in range(m)]; up = [lo[d] + r.range(1, 2 * w + 1 - lo[d]) for d in range(m)]
+        cover = 2 * r.range(1, w + 1)
+        split = 0 if r.chance(1, 2) else r.range(0, m - 2)
+        P = []
+        for _ in range(r.range(0, 12)):
+            q = list(r.choice(P)) if P and r.chance(1, 6) else [2 * r.below(w + 1) for _ in range(m)]
+            if r.chance(1, 3):                               # below the region in most coordinates (piles)
+                keep = r.below(m - 1)
+                q = [q[d] if d in (keep, m - 1) else min(q[d], lo[d] - (lo[d] % 2)) for d in range(m)]
+            if any(q[d] >= up[d] for d in range(m - 1)) or q[m - 1] >= cover: continue
+            if sum(1 for d in range(split) if lo[d] < q[d]) >= 2: continue
+            P.append(q)
+        P.sort(key=lambda p: p[m - 1])
+        n = len(P)
+        sq = r.choice([0, 1, 2, 3, int(n ** 0.5)])
+        ctx.hist("hoys_m", m); ctx.hist("hoys_n", n); ctx.hist("hoys_split_positive", split > 0)
+        npile = sum(1 for p in P if sum(1 for d in range(m - 1) if p[d] > lo[d]) >= 2)
+        ctx.hist("hoys_has_non_pile_point", npile > 0); ctx.hist("hoys_has_covering_point", any(all(p[d] <= lo[d] for d in range(m - 1)) for p in P))
+        return f"hoys {m} {n} {sq} {split} {cover} {flat([lo, up])} {flat(P)}".rstrip()
+    if kind in ("dca", "dcb"):
+        # ndHelperA / ndHelperB of the divide-and-conquer sort called directly with preset front numbers
+        m = r.choice([2, 3, 3, 4, 5]); k = r.range(2, m)
+        w = r.choice([2, 3, 4])
+        P = gen_points(r, m, r.range(0, 14), w, base, r.choice(["mix", "front"]))
+        if kind == "dca" and k < m and not r.chance(1, 4):
+            P = [p[:k] + [base] * (m - k) for p in P]          # precondition of A: equal in the objectives >= k
+        P = sorted({tuple(p) for p in P}); P = [list(p) for p in P]
+        if kind == "dca":
+            L, H = P, []
+        elif k < m and not r.chance(1, 4) and P:
+            t = r.choice(P)[k]                                 # precondition of B: L not worse than H in objective k
+            L = [p for p in P if p[k] <= t]; H = [p for p in P if p[k] > t]
+            if r.chance(1, 2):                                 # equal in objective k is allowed across L and H
+                e = [p for p in L if p[k] == t]
+                if len(e) > 1: L = [p for p in L if p not in e[1:]]; H = sorted(H + e[1:])
+        else:
+            L = [p for p in P if r.chance(1, 2)]; H = [p for p in P if p not in L]
+        frt = [r.choice([1, 1, 1, 2, 3, 4]) for _ in L] + [r.choice([1, 1, 1, 1, 2, 3]) for _ in H]
+        ctx.hist(kind + "_k_m", f"k{k}/m{m}"); ctx.hist(kind + "_sizes", f"{min(len(L), 6)}/{min(len(H), 6)}")
+        return f"{kind} {k} {m} {len(L)} {len(H)} {flat(L + H)} {' '.join(map(str, frt))}".replace("  ", " ").rstrip()
     raise ValueError(kind)
+
+
+def prefix_family(r, line, ctx):
+    """observation of intermediate sweep states through the public interface: the op on every prefix of the input in
+    sweep order (third / last objective for the hypervolume sweeps, lexicographic for the sorts)"""
+    d = parse_line(line)
+    if d is None or len(d["P"]) < 2 or len(d["P"]) > 14: return []
+    P = sorted(d["P"]) if d["op"] == "sort" else sorted(d["P"], key=lambda p: p[-1])
+    out = []
+    for i in range(1, len(P) + 1):
+        c = dict(d); c["P"] = P[:i]
+        out.append(unparse(c))
+    ctx.hist("prefix_family", d["op"] + (":" + d["alg"] if d["op"] == "con" else "") + ":m" + str(d["m"]))
+    return out
 
 
 # ----------------------------------------------------- shrinking of one op line
@@ -327,11 +385,20 @@ def run(ctx):
     lines = load_corpus()
     ctx.cov["corpus_cases"] = len(lines)
     r = ctx.rng.fork("c13")
-    plan = dict(dom=60, sort=260, hv=260, con=200, ssp=120) if ctx.quick else dict(dom=300, sort=1500, hv=1500, con=1200, ssp=700)
+    plan = dict(dom=60, sort=260, hv=260, con=200, ssp=120, hoys=160, dca=100, dcb=140) if ctx.quick else \
+        dict(dom=300, sort=1500, hv=1500, con=1200, ssp=700, hoys=1200, dca=600, dcb=900)
+    fam = {"sort": 0, "hv": 0, "con": 0}
     for kind, cnt in plan.items():
         for i in range(cnt):
             nmax = 40 if ctx.quick else (300 if (kind == "sort" and i % 6 == 0) else 60)
-            lines.append(gen_case(r, kind, nmax, ctx))
+            l = gen_case(r, kind, nmax, ctx)
+            lines.append(l)
+            # prefix families (intermediate states of the sweeps): 3-/4-objective hypervolume, 3-D contributions, sorts
+            if kind in fam and fam[kind] < (12 if ctx.quick else 60):
+                t = l.split()
+                if (kind == "hv" and t[1] in ("3", "4")) or (kind == "con" and t[1] in ("3d", "disp") and t[4] == "3") or kind == "sort":
+                    pf = prefix_family(r, l, ctx)
+                    if pf: fam[kind] += 1; lines += pf
     if not ctx.quick:
         # third arm of the switch: n > 5000 goes back to the divide-and-conquer sort
         P = gen_points(r, 3, 5003, 9, 0, "mix")
